@@ -968,7 +968,7 @@ func systematic(k int) {
 	}
 }
 
-// regWindow (only with VH_REGWINDOW=1; a demonstration, not part of the check):
+// regWindow (one fixed scenario per run; VH_REGWINDOW=1 prints its trace):
 // the window between register's claim of c.next and the link into the list.
 // File open; goroutine A's first Add on a fresh counter claims c.next and is
 // parked before the link; goroutine B's Add on the same counter finds it claimed
@@ -992,30 +992,56 @@ func regWindow() {
 	f.Rotate1() // the file is open
 	c := f.NewCounter("m0")
 	mw := &mworld{f: f, cs: []*counter.Counter{c}}
-	fmt.Fprintf(os.Stderr, "regwindow: initial %v\n", mw.observe())
+	dbg := os.Getenv("VH_REGWINDOW") != ""
+	if dbg {
+		fmt.Fprintf(os.Stderr, "regwindow: initial %v\n", mw.observe())
+	}
 	s := vsched.New(true)
 	defer vsched.Stop()
 	a := s.Go(func() { c.Add(1) })
 	for i := 0; i < 3; i++ { // c.next.Load, f.counters.Load, c.next.CAS: claimed, parked before the link
 		s.Step(a)
 	}
-	fmt.Fprintf(os.Stderr, "regwindow: A parked before %s; list=%v\n", s.Last(a).Label, mw.listed())
-	run := func(name string, fn func()) {
+	if dbg {
+		fmt.Fprintf(os.Stderr, "regwindow: A parked before %s; list=%v\n", s.Last(a).Label, mw.listed())
+	}
+	allDone := true
+	run := func(name string, fn func()) int {
 		ev0 := len(s.Events)
 		t := s.Go(fn)
 		for n := 0; !s.Done(t) && n < 500; n++ {
 			s.Step(t)
 		}
-		fmt.Fprintf(os.Stderr, "regwindow: %s done=%v obs=%v events=%v\n", name, s.Done(t), mw.observe(), s.Events[ev0:])
+		if !s.Done(t) {
+			allDone = false
+		}
+		faults := 0
+		for _, e := range s.Events[ev0:] {
+			if strings.HasPrefix(e, "USE-AFTER-UNMAP") {
+				faults++
+			}
+		}
+		if dbg {
+			fmt.Fprintf(os.Stderr, "regwindow: %s done=%v obs=%v events=%v\n", name, s.Done(t), mw.observe(), s.Events[ev0:])
+		}
+		return faults
 	}
-	run("B Add(2)", func() { c.Add(2) })
+	fb := run("B Add(2)", func() { c.Add(2) })
 	now = now.Add(8 * 24 * time.Hour)
-	run("C rotate1 (next week)", func() { f.Rotate1() })
-	run("D Add(4)", func() { c.Add(4) })
+	fc := run("C rotate1 (next week)", func() { f.Rotate1() })
+	// D's whole call begins after the rotation has returned (mapping closed)
+	fd := run("D Add(4)", func() { c.Add(4) })
 	for n := 0; !s.Done(a) && n < 500; n++ {
 		s.Step(a)
 	}
-	fmt.Fprintf(os.Stderr, "regwindow: A resumed, done=%v obs=%v list=%v\n", s.Done(a), mw.observe(), mw.listed())
+	if !s.Done(a) {
+		allDone = false
+	}
+	if dbg {
+		fmt.Fprintf(os.Stderr, "regwindow: A resumed, done=%v obs=%v list=%v\n", s.Done(a), mw.observe(), mw.listed())
+	}
+	out.Note("registration-window")
+	out.Case(true, "regwindow", B(allDone), I(int64(fb)), I(int64(fc)), I(int64(fd)))
 	f.Close()
 	vatomic.ResetClosed()
 	counter.VerifConcRelease()
@@ -1033,9 +1059,7 @@ func main() {
 	}
 	defer os.RemoveAll(root)
 	counter.VerifConcInit()
-	if os.Getenv("VH_REGWINDOW") != "" {
-		regWindow()
-	}
+	regWindow()
 	for i := 0; i < n; i++ {
 		scenario()
 		if i%8 == 7 {
